@@ -70,6 +70,11 @@ var checks = map[string]checkSpec{
 		Quick:     30 * time.Second, Thorough: 5 * time.Minute, Level: "exploration",
 		Rule: "Concurrent part (simulated): 1-6 goroutines call Balance on one RoundRobin (ChunkSize 0..5, fixed and varying partition counts) or LeastBytes under the seeded scheduler, which owns the interleaving of the balancers' mutexes; the recorded invoke/return history (event sequence numbers) is checked for linearizability against a sequential model with porcupine, followed by an exact quiescent continuation of the round-robin cycle; Hash / ReferenceHash with a caller-supplied hasher that yields inside Write are shared by 2-5 goroutines. Hash part (seeded input generation, not simulation): keys of every length mod 4, high-bit bytes, nil versus empty, partition counts 1..1000 against independent re-implementations of Sarama's FNV-1a partitioners, librdkafka's CRC32 partitioner and Java's murmur2 toPositive % n. Monitor: every Balance call a Writer makes in the writer scenario is compared with the same references and must return an offered partition.",
 	},
+	"C14": {
+		Scenarios: []scnSpec{{Name: "gbalance", Share: 0.7}, {Name: "cgroup", Share: 0.15}, {Name: "group", Share: 0.15}},
+		Quick:     30 * time.Second, Thorough: 5 * time.Minute, Level: "exploration",
+		Rule: "Range, RoundRobin and RackAffinity group balancers called directly with generated groups (1-12 members, 1-4 topics, 0-40 partitions, partial subscriptions, subscriptions to topics without partitions, racks on members and partition leaders, shuffled member and partition listings; half the groups small: <=4 members, <=6 partitions, <=2 topics). The iteration order of every Go map the balancers range over is drawn from the simulator's maporder stream (build overlay), so a failing order is found by the seeded search and replays. Oracle: exactly-one-owner who subscribes, nothing else assigned, per-topic loads within one, order independence and run/stride shape for Range/RoundRobin, per-rack locality bound for RackAffinity; a panic is a violation. The monitor in the cgroup and group scenarios checks the same rules on every assignment a group leader distributes through SyncGroup.",
+	},
 	"C07": {
 		Scenarios: []scnSpec{{Name: "writer", Params: "focus=order", Share: 1}},
 		Quick:     35 * time.Second, Thorough: 10 * time.Minute, Level: "exploration",
